@@ -4,7 +4,7 @@ func init() {
 	register(&propSpec{
 		ID:    "C05",
 		Rules: []func(*Ctx){ruleR05a, ruleR05b, ruleR05f, ruleR05g, ruleR05h},
-		Explain: "R05a: every scanner loop that reads input is evaluated with each rune read yielding eof (the source predicates are evaluated on that one constant) and must leave within a bounded unrolling; " +
+		Explain: "R05a: every scanner loop that reads input is evaluated with each rune read yielding eof (the source predicates are evaluated on that one constant) and must leave within a bounded unrolling;  R05g: for each read site in turn, when that read yields eof no manual rewind of the scanner position follows before another read; R05h: every manual rewind is by the recorded width, a constant, or inside the start guard (anything else is undecided)." +
 			"R05b: every parser loop that reads tokens is evaluated with reads yielding the closed-channel item / EOF / error item and must leave (return, break, or a raising call); " +
 			"R05f: the scanner's end-of-input state transition graph is acyclic and ends in nil.",
 		NotDecided: "the linear time bound, and the absence of runtime-error panics (index/nil faults), which parse's recover deliberately re-panics.",
@@ -16,7 +16,7 @@ func init() {
 	register(&propSpec{
 		ID:         "C08",
 		Rules:      []func(*Ctx){ruleR08a, ruleR08b, ruleR08d, ruleR02a},
-		Explain:    "R08a/R08c: interprocedural effect analysis over SSA and the VTA call graph (CHA in the thorough tier): every Store, MapUpdate, append/copy/delete/sort reachable from Renderer.Execute, Tofu.Render, EvalExpr, soyjs.Write and Generator.WriteFile is classified by the provenance of the object written; a write into a non-fresh object of a type declared in ast/template/soymsg/pomsg, into data.Map/data.List, or into a package variable is a violation.",
+		Explain:    "R08a/R08c: interprocedural effect analysis over SSA and the VTA call graph (CHA in the thorough tier): every Store, MapUpdate, append/copy/delete/sort reachable from Renderer.Execute, Tofu.Render, EvalExpr, soyjs.Write and Generator.WriteFile is classified by the provenance of the object written; a write into a non-fresh object of a type declared in ast/template/soymsg/pomsg, into data.Map/data.List, or into a package variable is a violation. R08d: no method of a stateful library type (pool, once, builder) is called on a package variable of the module while rendering.",
 		NotDecided: "determinism of functions that are random by specification (randomInt); behaviour of caller-supplied writers, bundles and callbacks.",
 		Assumes:    []string{"call graph (VTA; CHA in thorough) covers every dynamic call", "no reflection or unsafe writes in reachable code (asserted on every run)", "standard-library functions listed as allocating return fresh storage"},
 	})
@@ -26,7 +26,7 @@ func init() {
 	register(&propSpec{
 		ID:         "C02",
 		Rules:      []func(*Ctx){ruleR02a, ruleR02b, ruleR02c, ruleR02d, ruleR02e, ruleR02g, ruleR02h},
-		Explain:    "R02a: push/pop pairing of the renderer's scope in every soyhtml function (go/cfg dataflow over relative depth, raising paths exempt); R02b: every AST field the parser fills from a command body (derived from parse, not listed) is walked inside its own frame, or the *ast.ListNode case brackets its elements; R02c: scope-frame typestate (set only on renderer-allocated frames, new states only get entered scopes, capped data=\"all\" view); R02d: the loop helper functions look up exactly the key suffixes the loop sets.",
+		Explain:    "R02a: push/pop pairing of the renderer's scope in every soyhtml function (go/cfg dataflow over relative depth, raising paths exempt); R02b: every AST field the parser fills from a command body (derived from parse, not listed) is walked inside its own frame, or the *ast.ListNode case brackets its elements; R02c: scope-frame typestate (set only on renderer-allocated frames, new states only get entered scopes, capped data=\"all\" view); R02d: the loop helper functions look up exactly the key suffixes the loop sets. R02e/R02f: a called template is walked on a newly built state and every {param} kind binds its key on every non-raising path; R02g: a command-body field is only handed to the tree walker or compared with nil, never taken apart by hand; R02h: every state built for a template sets the fields the entry state sets.",
 		NotDecided: "the rendered text of each command; call-name resolution through namespace/alias; header-param folding.",
 		Assumes:    []string{"go/cfg control flow; no-return functions inferred from the source (panic closure)"},
 	})
@@ -36,7 +36,7 @@ func init() {
 	register(&propSpec{
 		ID:         "C09",
 		Rules:      []func(*Ctx){ruleR09a, ruleR08b, ruleR08d, ruleR09b, ruleR09c, ruleR09d},
-		Explain:    "R09a: the C08 effect analysis over every concurrent entry (render, JS generation; for parse/compile entries: package-state writes only) - no shared-memory write means no race among them; R08b: scope-frame freshness typestate; R09b: lexer fields written by the scanner goroutine and touched by the parser are disjoint except the channel; R09c: run closes the channel on every exit; R09d: no goroutine is started on the render path.",
+		Explain:    "R09a: the C08 effect analysis over every concurrent entry (render, JS generation; for parse/compile entries: package-state writes only) - no shared-memory write means no race among them; R08b: scope-frame freshness typestate; R09b: lexer fields written by the scanner goroutine and touched by the parser are disjoint except the channel; R09c: run closes the channel on every exit; R09d: no goroutine is started on the render path. R08d as under C08.",
 		NotDecided: "schedules as such are not explored; third-party writers, bundles and callbacks; Bundle.recompiler (WatchFiles), which upstream documents as not goroutine-safe.",
 		Assumes:    []string{"absence of shared writes is the sufficient condition for race freedom used here", "VTA call graph (CHA in thorough)", "channel operations synchronise"},
 	})
@@ -66,7 +66,7 @@ func init() {
 	register(&propSpec{
 		ID:         "C03",
 		Rules:      []func(*Ctx){ruleR03a, ruleR03b, ruleR03c, ruleR03d, ruleR03e, ruleR02e},
-		Explain:    "R03a: evalPrint is evaluated (finite-domain, AST) for every autoescape mode x cancel-flag value: unless the mode is off or a directive cancels, every completing path writes through the escaper and none writes raw; R03b: every cancelling PrintDirectives entry is in the language's list, and the HTML-producing / re-encoding ones return only data that passed their escaper (SSA taint from the value parameter to every return); R03c: the escaper's table covers the five characters with references that decode back and contain none of them; R03d: parseAutoescape yields the off mode only for \"false\".",
+		Explain:    "R03a: evalPrint is evaluated (finite-domain, AST) for every autoescape mode x cancel-flag value: unless the mode is off or a directive cancels, every completing path writes through the escaper and none writes raw; R03b: every cancelling PrintDirectives entry is in the language's list, and the HTML-producing / re-encoding ones return only data that passed their escaper (SSA taint from the value parameter to every return); R03c: the escaper's table covers the five characters with references that decode back and contain none of them; R03d: parseAutoescape yields the off mode only for \"false\". R03e: the autoescape mode of a live state is assigned only by the template-level attribute case of the walker; R02e: a called template runs on its own state.",
 		NotDecided: "index arithmetic inside the escaper loop (which byte ranges are copied); user-registered directives; contextual (attribute/JS/URI-aware) escaping, which this implementation does not provide.",
 		Assumes:    []string{"text/template.HTMLEscapeString, net/url.QueryEscape, text/template.JSEscapeString and encoding/json.Marshal are correct encoders"},
 	})
@@ -76,7 +76,7 @@ func init() {
 	register(&propSpec{
 		ID:         "C06",
 		Rules:      []func(*Ctx){ruleR06a, ruleR06b, ruleR06c, ruleR06d, ruleR06e, ruleR06f, ruleR02e},
-		Explain:    "R06a: every exported soyhtml entry that can reach the tree walker defers the recover handler (with its named error) first, and the handler assigns the error on every recovered path; R06b: the handler's own call tree (errRecover, errorf, errFromNode, callAnnotation, Registry.Filename/LineNumber/ColNumber, NewErrFilePosf) contains no unguarded nil dereference of a field, slice bound, index or single-value type assertion; R06c: Registry.Add rejects an already-registered template name before recording it; R06d: every non-range loop reachable from a render entry is a counted loop with a fixed-sign step or a sign guard; R06e: code that runs before/outside the recover contains no explicit raise except named exceptions; R06f: user callbacks (Func.Apply, PrintDirective.Apply) are invoked only under a recover.",
+		Explain:    "R06a: every exported soyhtml entry that can reach the tree walker defers the recover handler (with its named error) first, and the handler assigns the error on every recovered path; R06b: the handler's own call tree (errRecover, errorf, errFromNode, callAnnotation, Registry.Filename/LineNumber/ColNumber, NewErrFilePosf) contains no unguarded nil dereference of a field, slice bound, index or single-value type assertion; R06c: Registry.Add rejects an already-registered template name before recording it; R06d: every non-range loop reachable from a render entry is a counted loop with a fixed-sign step or a sign guard; R06e: code that runs before/outside the recover contains no explicit raise except named exceptions; R06f: user callbacks (Func.Apply, PrintDirective.Apply) are invoked only under a recover. R02e/R02f (shared with C02): callee state and unconditional param binding, on which the termination of recursive templates with inherited data rests.",
 		NotDecided: "data-bounded recursion (excluded by the property); faults inside user callbacks beyond the recover wrapper; exhaustion of memory by legitimately large data.",
 		Assumes:    []string{"fmt recovers panics raised by String()/Error() methods it calls", "positions stored in parse-tree nodes are non-negative"},
 	})
@@ -86,7 +86,7 @@ func init() {
 	register(&propSpec{
 		ID:         "C19",
 		Rules:      []func(*Ctx){ruleR19a, ruleR19b, ruleR19c, ruleR19d, ruleR19e, ruleR19f},
-		Explain:    "R19a: every parser is created with the input's name; parse failures are raised only through the positioned constructor (bare panics are internal markers); message prefix and File/Line/Col come from the same expressions and line/column from one offset; R19b: unexpected(token) positions every raise at that token's own offset and expect passes the token it read; R19c: errFromNode looks up file, line and column with one template name and the state's current node, errRecover only produces such errors, and a callee's failure propagates to the caller's state; R19d: a nested parse is given its position base.",
+		Explain:    "R19a: every parser is created with the input's name; parse failures are raised only through the positioned constructor (bare panics are internal markers); message prefix and File/Line/Col come from the same expressions and line/column from one offset; R19b: unexpected(token) positions every raise at that token's own offset and expect passes the token it read; R19c: errFromNode looks up file, line and column with one template name and the state's current node, errRecover only produces such errors, and a callee's failure propagates to the caller's state; R19d: a nested parse is given its position base. R19e: value-returning helpers that walk an operand on the same state (eval, renderBlock) restore the current-node mark on every returning path; R19f: the scanner's error item is positioned at the current scan offset, unconditionally.",
 		NotDecided: "the arithmetic of lineNumber/columnNumber (that the numbers are right for a given offset).",
 		Assumes:    []string{"token offsets recorded by the scanner are offsets of the construct concerned"},
 	})
@@ -109,7 +109,7 @@ func init() {
 	register(&propSpec{
 		ID:         "C10",
 		Rules:      []func(*Ctx){ruleR10a, ruleR10b, ruleR10c, ruleR10d},
-		Explain:    "R10a: no range over a map on the id / placeholder-name path is order-sensitive (K6); R10b: of ast.MsgNode the id computation reads only Body and Meaning, reads no source position, and reads only package variables that are never written after init (SSA field-read sets over the reachable functions); R10c: ids and placeholder names are assigned only in soymsg, which is called only from the compile pass and the extractor.",
+		Explain:    "R10a: no range over a map on the id / placeholder-name path is order-sensitive (K6); R10b: of ast.MsgNode the id computation reads only Body and Meaning, reads no source position, and reads only package variables that are never written after init (SSA field-read sets over the reachable functions); R10c: ids and placeholder names are assigned only in soymsg, which is called only from the compile pass and the extractor. R10d: the suffix-collision test consults the base-name table; R10e: all plural bodies are fingerprinted with braced placeholders.",
 		NotDecided: "numeric agreement of fingerprint/hash32 with the official algorithm; the exact placeholder names the official algorithm would choose.",
 		Assumes:    []string{"VTA call graph for reachability"},
 	})
@@ -119,7 +119,7 @@ func init() {
 	register(&propSpec{
 		ID:         "C14",
 		Rules:      []func(*Ctx){ruleR14, ruleR14b},
-		Explain:    "R14: SSA taint over every function of soyjs with parameter summaries to a fixpoint: values loaded from the free-text fields (raw text, string literal values, map-literal keys, css suffix, message html tags, catalogue text, file name) must reach the output (Writer.Write, fmt.Fprint*, JSWriter.Write, the generator's own js/jsln) only through text/template.JSEscape / JSEscapeString.",
+		Explain:    "R14: SSA taint over every function of soyjs with parameter summaries to a fixpoint: values loaded from the free-text fields (raw text, string literal values, map-literal keys, css suffix, message html tags, catalogue text, file name) must reach the output (Writer.Write, fmt.Fprint*, JSWriter.Write, the generator's own js/jsln) only through text/template.JSEscape / JSEscapeString. R14b: free text is not cut at byte offsets before it is escaped; R14c: the generator never reads StringNode.Quoted.",
 		NotDecided: "syntactic validity of the whole generated file; one function per template under its qualified name; identifier-class fields (template, parameter and variable names), which the scanner restricts to letters, digits and underscore.",
 		Assumes:    []string{"text/template.JSEscape is a correct JavaScript string escaper (it escapes quotes, backslash, <, >, &, = and every non-printable rune including U+2028/9)"},
 	})
@@ -129,7 +129,7 @@ func init() {
 	register(&propSpec{
 		ID:         "C07",
 		Rules:      []func(*Ctx){ruleR07a, ruleR07b, ruleR07c, ruleR07d, ruleR07e, func(c *Ctx) { ruleBlocks(c, "R07c-blocks", "soyhtml", 8) }},
-		Explain:    "R07a: on every success path Compile has parsed and registered every file and run CheckDataRefs, SetGlobals and ProcessMessages, and honours each error (go/cfg must-pass + SSA error discipline); R07b: the node kinds that bind a name agree between the compile-time checker, the Go renderer and the JavaScript generator, and data references are checked; R07c: every node-typed field of every AST node type is returned by its Children(), so no reference escapes the tree passes; the interpreter ends a {let} at least as early as the checker assumes (block frames); R07d: the one-declaration-mechanism test precedes recording a template.",
+		Explain:    "R07a: on every success path Compile has parsed and registered every file and run CheckDataRefs, SetGlobals and ProcessMessages, and honours each error (go/cfg must-pass + SSA error discipline); R07b: the node kinds that bind a name agree between the compile-time checker, the Go renderer and the JavaScript generator, and data references are checked; R07c: every node-typed field of every AST node type is returned by its Children(), so no reference escapes the tree passes; the interpreter ends a {let} at least as early as the checker assumes (block frames); R07d: the one-declaration-mechanism test precedes recording a template. R07e: the checker brings a binder into scope exactly where the language does (a {let} after its own definition, a loop variable for the loop body only).",
 		NotDecided: "that acceptance is exact for every program: the checker's own algorithm (shadowing, data=\"all\" expansion, required params) is value-level and not decided.",
 		Assumes:    []string{"go/cfg control flow", "the tree passes visit exactly what Children() returns"},
 	})
@@ -139,7 +139,7 @@ func init() {
 	register(&propSpec{
 		ID:         "C01",
 		Rules:      []func(*Ctx){ruleR01a, ruleR01b, ruleR01c, ruleR01d, ruleR01e, ruleR01f, ruleR07c, ruleR20f},
-		Explain:    "R01a: every token that can start an expression (evaluated over all token kinds) starts an implicit print; R01b: lexNegative evaluated for every token kind that can precede '-' agrees with the language partition (subtraction exactly after a complete operand); R01c: each operator's pipeline (scanner symbol, operator class, precedence entry, node constructor, Go and JS cases) is complete, the relative precedence order of all operator pairs equals the language table and binary operators are left-associative; R01d: every node type the parser builds has an evaluator case or a named parent; R01e: each operator case of the Go evaluator applies the language's operator to (Arg1, Arg2) in order, the ternary and ?: select as defined; R01f: built-in functions exist with the language's arities; R07c: Children() completeness (so globals are set on every GlobalNode).",
+		Explain:    "R01a: every token that can start an expression (evaluated over all token kinds) starts an implicit print; R01b: lexNegative evaluated for every token kind that can precede '-' agrees with the language partition (subtraction exactly after a complete operand); R01c: each operator's pipeline (scanner symbol, operator class, precedence entry, node constructor, Go and JS cases) is complete, the relative precedence order of all operator pairs equals the language table and binary operators are left-associative; R01d: every node type the parser builds has an evaluator case or a named parent; R01e: each operator case of the Go evaluator applies the language's operator to (Arg1, Arg2) in order, the ternary and ?: select as defined; R01f: built-in functions exist with the language's arities; R07c: Children() completeness (so globals are set on every GlobalNode). R20f: Int and Float are compared as float64 in both directions.",
 		NotDecided: "every value-level clause: integer/float arithmetic results, string/number formatting, truthiness and equality values, literal decoding, function results, 'undefined is an error'.",
 		Assumes:    []string{"the frozen language tables in the checker (operator levels, operand-ending tokens, function arities) transcribe the Soy language reference"},
 	})
@@ -149,7 +149,7 @@ func init() {
 	register(&propSpec{
 		ID:         "C04",
 		Rules:      []func(*Ctx){ruleR04a, ruleR04b, ruleR04c, ruleR04d, func(c *Ctx) { ruleBlockUse(c, "R04d-use", "soyjs") }, ruleR04f, ruleR04g, ruleR11a, ruleR11d, ruleR02h, ruleR07b},
-		Explain:    "Sibling cross-check of the two backends: R04a node-kind case sets agree (named exceptions); R04b function tables (names, argument counts), loop functions and print-directive tables (names, CancelAutoescape) agree; R04d the generator's scope push/pop is paired and every command body gets its own frame; R04c every expression emitter (walk cases and function-table emitters) is linearised by evaluating its emit calls path by path, parsed as a JavaScript expression template in which child slots are atoms, and for each operand slot every type-compatible child emitter must bind at least as tightly as the slot requires (and must not start with '-' directly after a '-'); R04f each operator node emits the JavaScript operator the language maps it to, operands in order; R04g visitPrint (evaluated over mode x cancel flag) wraps the value in escapeHtml exactly when the Go renderer escapes; R11a message parts are handled by both backends; R07b binder kinds agree.",
+		Explain:    "Sibling cross-check of the two backends: R04a node-kind case sets agree (named exceptions); R04b function tables (names, argument counts), loop functions and print-directive tables (names, CancelAutoescape) agree; R04d the generator's scope push/pop is paired and every command body gets its own frame; R04c every expression emitter (walk cases and function-table emitters) is linearised by evaluating its emit calls path by path, parsed as a JavaScript expression template in which child slots are atoms, and for each operand slot every type-compatible child emitter must bind at least as tightly as the slot requires (and must not start with '-' directly after a '-'); R04f each operator node emits the JavaScript operator the language maps it to, operands in order; R04g visitPrint (evaluated over mode x cancel flag) wraps the value in escapeHtml exactly when the Go renderer escapes; R11a message parts are handled by both backends; R07b binder kinds agree. R04d-use: command-body fields are only handed to the generator's walker; R11d/R11e/R02h: catalogue loading and translated-text handling agree between the backends.",
 		NotDecided: "anything inside soyutils.js; number formatting; mixed-type equality; statement-level structure of the generated file.",
 		Assumes:    []string{"the frozen operator mapping Soy -> JavaScript in the checker"},
 	})
@@ -159,7 +159,7 @@ func init() {
 	register(&propSpec{
 		ID:         "C11",
 		Rules:      []func(*Ctx){ruleR11a, ruleR11b, ruleR11c, ruleR11d, ruleR02h, ruleR10c},
-		Explain:    "R11a: every kind of soymsg.Part that the module constructs has a non-empty case in both backends' part renderers; R11b: the reference keys the extractor writes (id=, var=) are exactly those the catalogue loader reads, the loader skips exactly the tested prefix, and the msgid writer's { } placeholder syntax matches the reader's pattern; R11c: placeholders and plural variables are looked up and printed by the very fields the naming pass assigns (Name, VarName); R10c: those fields are assigned only by the naming pass.",
+		Explain:    "R11a: every kind of soymsg.Part that the module constructs has a non-empty case in both backends' part renderers; R11b: the reference keys the extractor writes (id=, var=) are exactly those the catalogue loader reads, the loader skips exactly the tested prefix, and the msgid writer's { } placeholder syntax matches the reader's pattern; R11c: placeholders and plural variables are looked up and printed by the very fields the naming pass assigns (Name, VarName); R10c: those fields are assigned only by the naming pass. R11d: the loader's per-entry variables are declared inside the loop over catalogue entries; R11e: translated text is written raw, as source raw text is; R02h: a called template's state carries the message bundle.",
 		NotDecided: "the round-trip equality of rendered text, plural selection per locale, fallback to source text (all quantify over catalogue contents and data); that distinct placeholders print distinct source text (C17).",
 		Assumes:    []string{"the gettext/po library splits references at whitespace"},
 	})
@@ -176,7 +176,7 @@ func init() {
 	register(&propSpec{
 		ID:         "C20",
 		Rules:      []func(*Ctx){ruleR20a, ruleR20b, ruleR20c, ruleR20d, ruleR20f},
-		Explain:    "R20a: no comparison against math.NaN(); R20b: the pairs of value kinds that Equals can accept form a symmetric relation that includes Int~Float; R20c: the reflect-kind switch of the conversion covers every kind the statement lists, unwraps pointers/interfaces, returns on nil before use, recognises time.Time before structs and nil slices before indexing; R20d: each Truthy is a single expression over the receiver and, evaluated on sample constants, follows the language table (null, false, 0, 0.0, NaN, \"\" falsy).",
+		Explain:    "R20a: no comparison against math.NaN(); R20b: the pairs of value kinds that Equals can accept form a symmetric relation that includes Int~Float; R20c: the reflect-kind switch of the conversion covers every kind the statement lists, unwraps pointers/interfaces, returns on nil before use, recognises time.Time before structs and nil slices before indexing; R20d: each Truthy is a single expression over the receiver and, evaluated on sample constants, follows the language table (null, false, 0, 0.0, NaN, \"\" falsy). R20f: the cross-kind arms of Int.Equals and Float.Equals compare both values as float64.",
 		NotDecided: "scalar fidelity of the conversion, idempotence, lowerCamel field names, equality of values (only the acceptance relation is decided), printing.",
 		Assumes:    []string{"the language's truthiness table in the checker"},
 	})
